@@ -29,7 +29,9 @@ impl TemporalCalendarIndex {
     #[inline]
     fn bucket_id(ts: u64, gran: TimeGranularity) -> u32 {
         let start = naive_bucket_of(ts, &gran);
-        (start & u32::MAX as u64) as u32
+        // Ids are 32 bits wide (also in the .cal file): buckets starting after 2106-02-07 share
+        // the last id, so that ids stay ordered like time (a wrapped id sorts among 1970..2106)
+        start.min(u32::MAX as u64) as u32
     }
 
     /// Record that the zone covers the inclusive timestamp range [min_ts, max_ts].
@@ -106,6 +108,15 @@ impl TemporalCalendarIndex {
 
 impl FieldIndex<i64> for TemporalCalendarIndex {
     fn zones_intersecting(&self, op: CompareOp, v: i64) -> RoaringBitmap {
+        // A literal beyond the last bucket id cannot be told from the values sharing that id
+        // (nor from the wrapped ids of files written before ids saturated): cannot prune
+        if v > u32::MAX as i64 {
+            let mut all = RoaringBitmap::new();
+            for bm in self.day.values() {
+                all |= bm;
+            }
+            return all;
+        }
         match op {
             CompareOp::Eq => {
                 if v < 0 {
